@@ -18,7 +18,7 @@ CRYPTO = "bec2format.crypto"
 
 def registered_aes(prog) -> ClassInfo:
     ex = Exec(prog)
-    t = ex.global_overrides.get((CRYPTO, "__AES128"))
+    t = ex.registry.get("AES128")
     if t is None or t.op != "class":
         raise AnalysisError("no class is registered through register_AES128 in the plug-in")
     return prog.cls(t.args[0])
